@@ -38,6 +38,13 @@ CHECKS = {
          "traces recorded from swc_utils.traverse / Tree.traverse / Node.traverse are validated event by event by TLC (Trace_StructRec), and chains of 2e4-1e5 "
          "nodes by the O(1)-state chain specialisation (Trace_ChainRec, justified by MC_ChainRec)",
     design="4/C04", technique="TLA+ event spec (StructRec) + PlusCal-style algorithm model checked against it + trace validation of recorded implementation traces by TLC"),
+ "C03": dict(
+    text="TreeOps.tla states the structural contract of every tree-to-tree operation (well-formed, sorted where documented, the unsorted re-rooting exception) "
+         "and the heap statements Pure / NoSharing / Isolation; MC_TreeHeap is a design-level model of the storage discipline (fresh cells from copy / fancy-index / "
+         "concatenate, in-place writes through node handles) in which TLC proves the heap statements and rejects the named deviations (aliased column, in-place "
+         "operation); TLC generates every 2-step pipeline over 49 operation instances plus randomised 6-10 step pipelines, the executor runs them on the real "
+         "library with a node-handle write after every step, and Trace_TreeOps validates the projected heap (topologies, content digests, numpy.shares_memory classes) after every step",
+    design="4/C03", technique="TLA+ heap specification + TLC-generated operation pipelines replayed into the code + TLC trace validation of the observed heap after every step"),
 }
 
 NA_REASON = {}
